@@ -172,3 +172,13 @@ pub fn constants() -> Constants {
 		multipart_entry_size: 4096,
 	}
 }
+
+/// Index page search, fast (vectorised where available) and scalar, on a raw 512-byte page.
+pub fn find_entry(
+	index_bits: u8,
+	key_prefix: u64,
+	start: usize,
+	chunk: &[u8; 512],
+) -> ((u64, usize), (u64, usize)) {
+	crate::index::IndexTable::verif_find(index_bits, key_prefix, start, chunk)
+}
